@@ -206,6 +206,23 @@ pub fn check_isolated(rc: &RunCtx, source: &str, probe: Option<&str>, macro_prof
     msgs
 }
 
+/// Isolated re-check of a disagreement seen in a batch. The batch crate had one of several build contexts (edition,
+/// rust-version); the isolated crate tries them in turn and stops at the first in which the disagreement shows
+/// again (`reproduces`), so that a fault tied to one context is confirmed rather than dismissed as an artefact.
+pub fn check_isolated_contexts(rc: &RunCtx, source: &str, probe: Option<&str>, macro_profile: &str, reproduces: &dyn Fn(&[String]) -> bool) -> Vec<String> {
+    use std::sync::atomic::Ordering;
+    let mut last = Vec::new();
+    for ctx in [0usize, 1, 3] {
+        crate::emit::ISO_CONTEXT.store(ctx, Ordering::Relaxed);
+        last = check_isolated(rc, source, probe, macro_profile);
+        if reproduces(&last) {
+            break;
+        }
+    }
+    crate::emit::ISO_CONTEXT.store(0, Ordering::Relaxed);
+    last
+}
+
 /// Isolated check of one documented declaration inside a crate with the given crate-level regime.
 pub fn check_isolated_opts(rc: &RunCtx, source: &str, no_std: bool, deny_docs: bool) -> Vec<String> {
     let dir: PathBuf = rc.work.join("iso-regime");
@@ -243,7 +260,7 @@ pub fn replay_doc(rc: &RunCtx, kind: &str, doc: &Value) -> Result<(), String> {
             let expect_accept = doc["expect_accept"].as_bool().unwrap_or(false);
             let mp = doc["macro_profile"].as_str().unwrap_or("dev");
             let probe = doc["probe"].as_str();
-            let msgs = check_isolated(rc, source, probe, mp);
+            let msgs = check_isolated_contexts(rc, source, probe, mp, &|m: &[String]| m.is_empty() != expect_accept);
             let accepted = msgs.is_empty();
             if accepted != expect_accept {
                 return Err(format!(
